@@ -116,7 +116,55 @@ func ruleG1(p *Prog, r *Report) {
 					bad = append(bad, "assigns a captured variable at "+p.InstrPos(in))
 				}
 			}
+			// several instances of the worker run at once: a channel it was handed may be closed by the launcher
+			// only (a second close panics the process)
+			if cc, ok := isBuiltinCall(in, "close"); ok && len(cc.Args) == 1 {
+				if _, local := canon(stripChanConv(cc.Args[0])).(*ssa.MakeChan); !local {
+					bad = append(bad, "closes a channel it shares with the other workers at "+p.InstrPos(in)+" (two workers doing so panic with 'close of closed channel')")
+				}
+			}
 		})
+		// closures of the launcher that the worker can call or hand on (a decoder callback built around a
+		// launcher-local cache): their writes to what they captured happen on the worker's goroutine
+		seenCl := map[*ssa.Function]bool{}
+		var viaClosure func(fn *ssa.Function, depth int)
+		viaClosure = func(fn *ssa.Function, depth int) {
+			if depth > 3 {
+				return
+			}
+			for _, fv := range fn.FreeVars {
+				bound := singleStoreTo(fv)
+				if bound == nil {
+					continue
+				}
+				mc, ok := canon(bound).(*ssa.MakeClosure)
+				if !ok {
+					continue
+				}
+				cl, ok := mc.Fn.(*ssa.Function)
+				if !ok || seenCl[cl] || cl == w {
+					continue
+				}
+				seenCl[cl] = true
+				for _, e := range p.directEffectsOf(cl) {
+					if e.Kind == "mem" && (e.What == "free" || strings.HasPrefix(e.What, "map:free")) {
+						bad = append(bad, "can call the launcher's closure "+p.Name(cl)+", which writes captured memory at "+p.InstrPos(e.Instr))
+					}
+				}
+				eachInstr(cl, func(in ssa.Instruction) {
+					if st, ok := in.(*ssa.Store); ok {
+						if _, ok := st.Addr.(*ssa.FreeVar); ok {
+							bad = append(bad, "can call the launcher's closure "+p.Name(cl)+", which assigns a captured variable at "+p.InstrPos(in))
+						}
+					}
+				})
+				viaClosure(cl, depth+1)
+			}
+			for _, a := range fn.AnonFuncs {
+				viaClosure(a, depth+1)
+			}
+		}
+		viaClosure(w, 0)
 		sort.Strings(bad)
 		bad = uniq(bad)
 		cons := "worker:" + p.Name(w)
